@@ -5,7 +5,7 @@ CONSTANTS
   AmpsL <- Amps2
   Pin = 2
   Mutant = "axes_not_swapped"
-  ExemptKnown = TRUE
+  PreFix = FALSE
   Emit = FALSE
 INVARIANT RouteGivesDense
 CHECK_DEADLOCK FALSE
